@@ -113,6 +113,8 @@ impl Future for StatusFuture {
     if self.0.is_closed() {
       Poll::Ready(NormalReturn::new(()))
     } else {
+      #[cfg(feature = "verif_hooks")]
+      crate::verif_hooks::point("status_window", Arc::as_ptr(&self.0) as *const () as usize, &mut || true);
       self.0.waker.register(cx.waker());
       Poll::Pending
     }
